@@ -871,9 +871,11 @@ func checkDecryptHistoryInner(c decryptHistCase, r *h.Rec) error {
 				{"recipient rsa-2", "rsa-2", "rsa-2", true, false},
 				{"certificate of sm2-2 with the key of sm2-4", "sm2-2", "sm2-4", false, true},
 				{"non-recipient rsa-3", "rsa-3", "rsa-3", false, true},
-				{"certificate of rsa-2 with the key of rsa-3", "rsa-2", "rsa-3", false, c.Kind == "saed"},
+				{"certificate of rsa-2 with the key of rsa-3", "rsa-2", "rsa-3", false, true},
 				{"recipient sm2-2, verify function refuses", "sm2-2", "sm2-2", false, true},
 				{"recipient rsa-2, no verify function", "rsa-2", "rsa-2", true, false},
+				{"certificate of rsa-2 with the key of rsa-3, no verify function", "rsa-2", "rsa-3", false, true},
+				{"certificate of sm2-2 with the key of sm2-4, no verify function", "sm2-2", "sm2-4", false, true},
 			}
 			a := actors[oi%len(actors)]
 			what = a.what
@@ -943,7 +945,7 @@ func TestC16_DecryptObjectReuse(t *testing.T) {
 		c.Cipher = rapid.SampledFrom(cipherTable).Draw(t, "cipher").name
 		c.Len = rapid.OneOf(rapid.IntRange(0, 2), rapid.IntRange(0, 70)).Draw(t, "len")
 		c.Seed = rapid.Uint64().Draw(t, "seed")
-		c.Ops = rapid.SliceOfN(rapid.IntRange(0, 7), 2, 6).Draw(t, "ops")
+		c.Ops = rapid.SliceOfN(rapid.IntRange(0, 9), 2, 6).Draw(t, "ops")
 		c.Scribble = rapid.IntRange(0, 3).Draw(t, "scribble") != 0
 		c.InFlav = rapid.IntRange(0, 1).Draw(t, "inflav")
 		c.KeyFlav = rapid.IntRange(0, 1).Draw(t, "keyflav")
